@@ -21,6 +21,16 @@ type Fact struct {
 	Depth int
 	// Via is the call chain (callee names) through which this fact was imported.
 	Via []string
+	// OutcomeOf is set on synthetic facts meaning "this call returned nil (or true/false, see
+	// Truth) in result position OutcomeIdx"; Cond is then the call itself.
+	OutcomeOf  *ssa.Call
+	OutcomeIdx int
+}
+
+// ReturnedNil reports whether the fact says that a call of a function whose short name ends
+// with nameSuffix returned nil/true (the accepting outcome).
+func (f Fact) ReturnedOK(nameSuffix string) bool {
+	return f.OutcomeOf != nil && f.Truth && len(f.Via) > 0 && strings.HasSuffix(f.Via[len(f.Via)-1], nameSuffix)
 }
 
 // Path renders v (a value of f.Fn) as an access path in terms of the outermost function.
@@ -85,6 +95,18 @@ func (c *Ctx) factsAt(in ssa.Instruction, depth int, subst map[string]string, vi
 			continue
 		}
 		out = append(out, c.calleeFacts(cond, truth, fn, depth, subst, via, d)...)
+	}
+	return out
+}
+
+// EdgeFacts returns the facts implied by taking one conditional edge: the condition itself with
+// its polarity plus, to `depth`, the facts of the callee outcome it fixes.
+func (c *Ctx) EdgeFacts(e Edge, depth int) []Fact {
+	cond, truth := normCond(e.If.Cond, e.Taken)
+	fn := e.If.Parent()
+	out := []Fact{{Cond: cond, Truth: truth, Fn: fn}}
+	if depth > 0 {
+		out = append(out, c.calleeFacts(cond, truth, fn, depth, nil, nil, 0)...)
 	}
 	return out
 }
@@ -168,6 +190,11 @@ func (c *Ctx) outcomeFacts(call *ssa.Call, idx int, oc outcome, depth int, subst
 		}
 	}
 	nvia := append(append([]string{}, via...), ShortFn(callee))
+	// the outcome itself is a fact: "callee returned nil/true/false in result idx"
+	self := Fact{Cond: call, Truth: oc != outcomeFalse, Fn: call.Parent(), Subst: subst, Depth: d, Via: nvia, OutcomeOf: call, OutcomeIdx: idx}
+	if depth <= 0 {
+		return []Fact{self}
+	}
 	var acc []Fact
 	first := true
 	matched := 0
@@ -204,9 +231,9 @@ func (c *Ctx) outcomeFacts(call *ssa.Call, idx int, oc outcome, depth int, subst
 		}
 	}
 	if matched == 0 {
-		return nil
+		return []Fact{self}
 	}
-	return acc
+	return append(acc, self)
 }
 
 type retAlt struct {
